@@ -54,6 +54,10 @@ pub struct Elem {
     /// a second one, at another of the four positions
     #[serde(default)]
     pub wrapper_inline2: Option<(u8, Box<Elem>)>,
+    /// inline layout only: another inline element directly after the body text, inside this one
+    /// (with an empty body text the two opening tags touch)
+    #[serde(default)]
+    pub inline_child: Option<Box<Elem>>,
     /// carries the unwrap-block attribute but has no wrapper lines and at most one
     /// line between its tags: can never be unwrapped (its children are still cleaned)
     #[serde(default)]
@@ -211,7 +215,8 @@ impl Elem {
     /// open tag + body + close tag of an inline element, without indentation, prefix or suffix
     fn inline_core(&self, doc: &Doc) -> String {
         let body = self.inline.as_ref().map(|x| x.1.as_str()).unwrap_or("");
-        format!("{}{}{}", self.open_tag(doc), body, self.close_tag(doc))
+        let nested = self.inline_child.as_ref().map(|c| c.inline_core(doc)).unwrap_or_default();
+        format!("{}{}{}{}", self.open_tag(doc), body, nested, self.close_tag(doc))
     }
 
     fn close_tag(&self, doc: &Doc) -> String {
@@ -227,7 +232,8 @@ fn render_nodes(doc: &Doc, nodes: &[Node], out: &mut Vec<String>) {
             Node::Line(s) => out.push(s.clone()),
             Node::Elem(e) => {
                 if let Some((pre, body, suf)) = &e.inline {
-                    out.push(format!("{}{}{}{}{}{}", e.indent, pre, e.open_tag(doc), body, e.close_tag(doc), suf));
+                    let _ = body;
+                    out.push(format!("{}{}{}{}", e.indent, pre, e.inline_core(doc), suf));
                 } else {
                     // a multi-line open tag contributes several lines
                     let n_open = e.open_tag(doc).split('\n').count();
@@ -299,6 +305,11 @@ impl Doc {
             for n in nodes {
                 if let Node::Elem(e) = n {
                     out.push(e);
+                    let mut c = e.inline_child.as_deref();
+                    while let Some(x) = c {
+                        out.push(x);
+                        c = x.inline_child.as_deref();
+                    }
                     if let Some((_, x)) = &e.wrapper_inline {
                         out.push(x);
                     }
@@ -319,6 +330,13 @@ impl Doc {
             for n in nodes {
                 if let Node::Elem(e) = n {
                     out.push(e as *mut Elem);
+                    let mut cur: *mut Elem = e as *mut Elem;
+                    // Safety: walks a chain of distinct boxed elements
+                    while let Some(x) = unsafe { &mut *cur }.inline_child.as_mut() {
+                        let p = &mut **x as *mut Elem;
+                        out.push(p);
+                        cur = p;
+                    }
                     if let Some((_, x)) = &mut e.wrapper_inline {
                         out.push(&mut **x as *mut Elem);
                     }
@@ -417,6 +435,7 @@ impl Doc {
                 e.indent.clear();
                 c
             }));
+            variants.push(Box::new(|e| e.inline_child.take().is_some()));
             variants.push(Box::new(|e| e.wrapper_inline2.take().is_some()));
             variants.push(Box::new(|e| {
                 let had = e.wrapper_inline.take().is_some();
@@ -655,6 +674,7 @@ impl<'a, 'b> DocGen<'a, 'b> {
             children: vec![],
             wrapper_inline: None,
             wrapper_inline2: None,
+            inline_child: None,
             unwrap_degenerate: false,
         })
     }
@@ -709,6 +729,7 @@ impl<'a, 'b> DocGen<'a, 'b> {
             children: vec![],
             wrapper_inline: None,
             wrapper_inline2: None,
+            inline_child: None,
             unwrap_degenerate: false,
         };
         if inline {
@@ -718,6 +739,22 @@ impl<'a, 'b> DocGen<'a, 'b> {
             let ok = |s: &str| !s.contains(ds) && !s.contains(de);
             if ok(&pre) && ok(&body) && ok(&suf) {
                 e.inline = Some((pre, body, suf));
+                // now and then another inline element sits inside, sometimes with nothing around it
+                if self.budget > 0 && self.rng.chance(1, 4) {
+                    self.budget -= 1;
+                    if let Some(mut c) = self.inline_elem("", ds, de, false) {
+                        if self.rng.chance(1, 2) {
+                            if let Some(i) = e.inline.as_mut() {
+                                i.1.clear();
+                            }
+                        }
+                        if self.budget > 0 && self.rng.chance(1, 4) {
+                            self.budget -= 1;
+                            c.inline_child = self.inline_elem("", ds, de, false).map(Box::new);
+                        }
+                        e.inline_child = Some(Box::new(c));
+                    }
+                }
                 return e;
             }
         }
@@ -785,6 +822,21 @@ pub fn generate(rng: &mut Rng, p: &GenParams) -> Doc {
     };
     let mut g = DocGen { rng, p, next_id: 1, budget, max_depth, wide };
     let mut nodes = g.nodes(0, "", &ds, &de, 1, 6);
+    // rarely: a tower of 34..45 nested elements (deeper than any fixed-size limit one might pick)
+    if p.large_inputs && g.rng.chance(1, 400) {
+        let levels = 34 + g.rng.usize(12);
+        let mut inner: Vec<Node> = vec![Node::Line("core();".to_string())];
+        g.budget = levels;
+        for _ in 0..levels {
+            let mut e = g.elem(p.max_depth + 100, "", &ds, &de);
+            if e.inline.is_some() || e.unwrap_degenerate {
+                continue;
+            }
+            e.children = inner;
+            inner = vec![Node::Elem(e)];
+        }
+        nodes.extend(inner);
+    }
     // make sure there is at least one element
     if g.next_id == 1 {
         let e = g.elem(0, "", &ds, &de);
